@@ -19,3 +19,5 @@ def check(rep, tier):
     from contracts import programs_exact, tracer_trace
     rep.run(programs_exact.run_nest, rep)
     rep.run(tracer_trace.run, rep, tier, only=("TR-result",))
+    from contracts import rules_shape as _rs
+    rep.run(_rs.run_adjoint_helpers, rep, tier)     # E3: second-order rules of dot / tensordot (the adjoint helpers' own VJPs), symbolic sizes
